@@ -58,7 +58,8 @@ type FuncSpec struct {
 	Asserts   []AssertSpec
 	Calls     map[string][]string // func-typed field -> possible targets
 	RetElem   string              // result is nil or &param[k]
-	Opaque    []string            // statement ordinals abstracted ("havoc")
+	Opaque    []string            // spec functions kept uninterpreted in this function's obligations
+	OpaqueExc map[string][]string // spec function -> labels of the obligations that still see its definition
 	File      string
 	Line      int
 	Lets      []LetSpec
@@ -374,7 +375,26 @@ func (cs *Contracts) ParseFile(path string) error {
 			case "returns_elem":
 				curF.RetElem = strings.TrimSpace(rc.rest)
 			case "opaque":
-				curF.Opaque = append(curF.Opaque, strings.Fields(rc.rest)...)
+				// opaque f g [except label ...]: f and g are uninterpreted in the obligations of this function,
+				// except in those whose label is listed (they need the definition)
+				fs := strings.Fields(rc.rest)
+				var exc []string
+				for i, f := range fs {
+					if f == "except" {
+						exc = fs[i+1:]
+						fs = fs[:i]
+						break
+					}
+				}
+				curF.Opaque = append(curF.Opaque, fs...)
+				if len(exc) > 0 {
+					if curF.OpaqueExc == nil {
+						curF.OpaqueExc = map[string][]string{}
+					}
+					for _, f := range fs {
+						curF.OpaqueExc[f] = append(curF.OpaqueExc[f], exc...)
+					}
+				}
 			case "let":
 				fs := strings.SplitN(rc.rest, "=", 2)
 				if len(fs) != 2 {
